@@ -176,6 +176,9 @@ func (fi *FileInfo) MakeReader(opt *ReaderOptions) (*Reader, error) {
 		if err == nil {
 			return false
 		}
+		if !IsMalformed(err) {
+			return true
+		}
 		if opt.ErrorHandling == ErrorHandlingReport {
 			var e *MalformedFileError
 			if errors.As(err, &e) {
